@@ -1,0 +1,8 @@
+//go:build !verif
+
+package manager
+
+import "github.com/kitex-contrib/xds/core/xdsresource"
+
+// verifYield is a no-op unless the package is built with the `verif` tag.
+func verifYield(int, xdsresource.ResourceType, string) {}
